@@ -7,7 +7,7 @@ from typing import Any
 from sa.kern import eval_kernel
 from sa.loopsum import (LoopSummariser, kvar, length_of, r_cell, r_sum)
 from sa.report import Ctx
-from sa.srcmodel import func_body, inline_locals
+from sa.srcmodel import FuncInfo, func_body, inline_locals
 from sa.symterm import Poly, Unsupported, show
 
 OBJ = "moptipyapps.qap.objective"
@@ -479,7 +479,67 @@ def _init(ctx: Ctx) -> None:
            construct="constructor only tightens bounds")
 
 
+def _value_range(ctx: Ctx) -> None:
+    """The text loader converts every token with a range check; that range
+    must be [0, K] with K at least the largest bound the constructor
+    accepts - otherwise a text whose instance the constructor would take is
+    rejected while it is read."""
+    repo = ctx.repo
+    fq = repo.func(INST, "Instance.from_qaplib_stream")
+    init = repo.cls(INST, "Instance").methods["__init__"]
+
+    def ranges(fi: Any) -> list[tuple[Any, Any, ast.Call]]:
+        out = []
+        for c in ast.walk(fi.node):
+            if isinstance(c, ast.Call) and isinstance(
+                    c.func, ast.Name) and c.func.id in (
+                    "check_int_range", "check_to_int_range") and len(
+                    c.args) >= 4:
+                out.append((repo.const(fi.module, inline_locals(
+                    fi.node, c.args[2])), repo.const(
+                    fi.module, inline_locals(fi.node, c.args[3])), c))
+        return out
+    # the converters the loader maps over the tokens
+    convs = []
+    for c in ast.walk(fq.node):
+        if isinstance(c, ast.Call) and isinstance(
+                c.func, ast.Name) and c.func.id == "map" and c.args and \
+                isinstance(c.args[0], ast.Name):
+            r = repo.resolve(fq.module, c.args[0].id)
+            if isinstance(r, FuncInfo) and r not in convs:
+                convs.append(r)
+    ctor = [hi for lo, hi, _c in ranges(init) if isinstance(hi, int)]
+    k_ctor = max(ctor) if ctor else None
+    problems = []
+    node: ast.AST = fq.node
+    n_rng = 0
+    for cv in convs:
+        for lo, hi, c in ranges(cv):
+            n_rng += 1
+            if not isinstance(lo, int) or not isinstance(hi, int):
+                problems.append(f"the range checked by `{cv.name}` is not "
+                                "recognised")
+                continue
+            if lo != 0 or (k_ctor is not None and hi < k_ctor):
+                node = c
+                problems.append(
+                    f"`{cv.name}` accepts values in [{lo}, {hi}] only, but "
+                    f"the constructor accepts bounds up to {k_ctor}: a "
+                    "valid instance text with a larger entry is rejected "
+                    "while it is read")
+    if convs and not n_rng:
+        problems.append("the range check of the token converter is not "
+                        "recognised")
+    ctx.ob("D9.4", fq, node, not problems,
+           f"every token is converted under a range check [0, K] with K >= "
+           f"{k_ctor}, the largest bound the constructor accepts"
+           if not problems else "; ".join(dict.fromkeys(problems)),
+           construct="token range covers the constructor's",
+           nontrivial=bool(convs))
+
+
 def _parser(ctx: Ctx) -> None:
+    _value_range(ctx)
     repo = ctx.repo
     fq = repo.func(INST, "Instance.from_qaplib_stream")
     icls = repo.cls(INST, "Instance")
